@@ -175,13 +175,15 @@ def run(chk):
             chk.disagree(f"c05:double.parseJson:{x!r}", {"x": repr(x)}, "true", p,
                          "std.parseJson(std.manifestJsonEx([x]))[0] != x")
 
-    # 3d. thorough: every Unicode scalar value
-    if thorough:
+    # 3d. every Unicode scalar value (thorough); quick: all of U+0000..U+02FF and the boundaries of the encoding forms
+    if True:
         ucmds, umeta = [], []
-        cp = 0
-        while cp < 0x110000:
-            chunk = [c for c in range(cp, min(cp + 192, 0x110000)) if not (0xD800 <= c <= 0xDFFF)]
-            cp += 192
+        if thorough:
+            chunks = [[c for c in range(cp, min(cp + 192, 0x110000)) if not (0xD800 <= c <= 0xDFFF)] for cp in range(0, 0x110000, 192)]
+        else:
+            chunks = [list(range(cp, cp + 64)) for cp in range(0, 0x300, 64)]
+            chunks.append([0x7FF, 0x800, 0x2028, 0x2029, 0xD7FF, 0xE000, 0xFEFF, 0xFFFD, 0xFFFE, 0xFFFF, 0x10000, 0x1F600, 0x10FFFF])
+        for chunk in chunks:
             if not chunk:
                 continue
             s = from_cps(chunk)
